@@ -526,7 +526,8 @@ func TestProp(t *testing.T) {
 			"only the answers of those public queries are judged. " +
 			"Non-trivial = a k>=2 query on a tree of depth>=2, a tie at the k-th distance, or a probe battery after a delete. Distinct by case hash." +
 			" Round 9: after deleting steps the snapshot is searched for sparse subtrees (fewer objects than the minimum fill of their level gives, or <= 12 right under the root) and k-nearest queries with k one and two above their size are issued from the middle of their box and of their first object; one query point in ten is multiplied by 2^300..2^1015." +
-			" Round 10: 'nnrep' (the point of the last k = 1 query again, bit for bit) and 'nnswap' (ask, insert an object on the point, delete another object, ask again) in one query op out of seven each.",
+			" Round 10: 'nnrep' (the point of the last k = 1 query again, bit for bit) and 'nnswap' (ask, insert an object on the point, delete another object, ask again) in one query op out of seven each." +
+			" Round 11: 'wide' cases (1 in 300): fan-out 66-128, the points (+-g^i, +-g^-i) for |i| <= 1500..3000 in a drawn order, 400 k = 1 queries from the axes and around the origin.",
 		Assumptions: []string{"ties are compared by distance, not identity", "queries are only issued on non-empty trees", "the search for misleading node boxes reads the structure through the build-tag verif snapshot (index/rtree/verif_walk.go); verdicts come from NearestNeighbor / NearestNeighbors only",
 			"coordinates stay below the magnitude (about 1e150) at which the package's squared distances and box areas overflow: beyond it Insert's area comparisons and the MaxFloat64 'nothing found yet' marker of the queries stop working (observed by a round-6 author: points at 1e200 queried from the origin give nil slots), which is a limit of the whole package, not of the search order this property is about"},
 		Gen:      gen,
